@@ -44,8 +44,11 @@ ASSUMPTIONS = [
     "regression: inputs whose inverse has an entry exactly 0 (s12 = 0) or of Pa-like magnitude are replayed on every run "
     "(before repo commit 1b22ce6 an allclose(.,0) filter dropped such compliances and the Reuss moduli raised AttributeError); "
     "a return of that behaviour is reported with site Calculator._calculate_compliances:allclose-filter-drops-needed-compliance",
-    "the name-lookup model covers names that REACH __getattr__ (no class attribute / instance attribute of that name); Python's `$` also "
-    "matches before one trailing newline: modelled, and exercised by the lookup stream",
+    "which names reach __getattr__ is PROVED from the translated classes (calc_glue_accepted_names_reach_getattr, calc_glue_getattr_*): class-body "
+    "names, attributes assigned on self, LazyProperty caches; what remains assumed is Python's lookup order itself and that whatever `object` / the "
+    "type machinery add is spelled `__...` (hypothesis `builtin` of the theorems; checked on the real objects by the shadow stream, which also runs "
+    "the full 2808-name language against inspect.getattr_static and getattr); no code outside calculator.py assigns attributes on the interfaces. "
+    "Python's `$` also matches before one trailing newline: modelled, and exercised by the lookup stream",
     "`sIJt` / `s_IJt` / `sijklt` (compliance under the isothermal name): AttributeError since the repair of `__getattr__` (s-branch tests "
     "group(3)); the oracle accepts any exception or the inverse of the isothermal stiffness `cIJt`, and reports the adiabatic compliance "
     "under that name with site c07:lookup:sIJt-returns-adiabatic-compliance (the behaviour before the repair)",
@@ -920,6 +923,133 @@ def lookup_replay(payload):
     return out
 
 
+# ---- normal attribute lookup versus __getattr__: the FULL language of REGEX_CIJ on the real classes ---------------------------------
+def full_language():
+    """every name the documented pattern accepts, spelled out by hand (no `re`, no cij): 2 prefixes x optional `_` x (36 Voigt + 81 standard
+    digit strings) x suffix none|s|t x optional trailing newline = 2808 names"""
+    import itertools
+    digits = ["".join(d) for d in itertools.product("123456", repeat=2)] + ["".join(d) for d in itertools.product("123", repeat=4)]
+    return [p + u + d + sf + nl for p in "cs" for u in ("", "_") for d in digits for sf in ("", "s", "t") for nl in ("", "\n")]
+
+
+def translated_shape():
+    """the per-class tables the translator wrote on THIS run (Lean list-of-pairs syntax is Python literal syntax)"""
+    import ast as _ast, os as _os, re
+    path = _os.path.join(_os.path.dirname(_os.path.dirname(_os.path.abspath(__file__))), "lean", "Generated", "CalcGlueSpec.lean")
+    text = open(path).read()
+    out = {}
+    for nm in ("classNames", "initAttrs", "laterAttrs", "lazyCacheAttrs"):
+        m = re.search(r"^def " + nm + r" : List \(String × List String\) :=\s*(\[.*?\])[ \t]*\n(?:\n|def )", text, re.S | re.M)
+        if not m: return None
+        out[nm] = dict(_ast.literal_eval(m.group(1)))
+    return out
+
+
+def shadow_stream(ctx, res):
+    """`getattr(interface, name)` IS `__getattr__(name)` for every accepted name: (a) static lookup (`inspect.getattr_static`: class dict along the
+    MRO, instance dict — before and after every explicit quantity has been read, so that LazyProperty caches exist) finds nothing under any of
+    the 2808 names [correspondence with `calc_glue_accepted_names_reach_getattr`]; (b) the object `getattr` returns is the entry of the store
+    the property names (identity-tagged dictionaries, all 21 keys) [oracle]; (c) the translated class shape is the real one, and whatever else
+    `dir()` lists is spelled `__…` [the `builtin` hypothesis of the theorems]; (d) the pressure interface forwards exactly what reaches it."""
+    import inspect
+    from cij.core.calculator import CijVolumeBaseInterface, CijPressureBaseInterface
+    from cij.util import c_
+    fails, notes = [], []
+    stats = {"names": 0, "statically_found": 0, "served_from_expected_store": 0, "attribute_error_expected": 0, "pressure_forwarded": 0,
+             "class_shape_compared": 0}
+    all21 = [(i, j) for i in range(1, 7) for j in range(i, 7)]
+    names = full_language()
+    missing = object()
+    payload = {"kind": "lookup", "modulus_keys": [list(p) for p in all21], "dict_keys": [list(p) for p in all21],
+               "compl_keys": [list(p) for p in all21]}
+    for warm in (False, True):
+        stub = types.SimpleNamespace()
+        tag = {}
+        def arr(store, p):
+            a = numpy.array([[1.0 + len(tag)]]); tag[id(a)] = (store, p); return a
+        stub.modulus_keys = [c_(*p) for p in all21]
+        stub.modulus_adiabatic = {c_(*p): arr("modulus_adiabatic", p) for p in all21}
+        stub.modulus_isothermal = {c_(*p): arr("modulus_isothermal", p) for p in all21}
+        stub._compliances = {c_(*p): arr("_compliances", p) for p in all21}
+        stub.qha_calculator = types.SimpleNamespace(volume_base=types.SimpleNamespace(v_array=numpy.array([100.0]), t_array=numpy.array([300.0]),
+                                                                                      pressures=numpy.array([[0.0]])))
+        stub.elast_data = types.SimpleNamespace(cellmass=100.0)
+        vb = CijVolumeBaseInterface(stub)
+        pb = CijPressureBaseInterface(stub)
+        stub.volume_base, stub.pressure_base = vb, pb
+        if warm:       # read every explicit quantity first: whatever cache attribute a (Lazy)property leaves on the instance is there now
+            for _, attr in QUANT:
+                for o in (vb,):
+                    try:
+                        with numpy.errstate(all="ignore"): getattr(o, attr)
+                    except Exception: pass
+        for nm in names:
+            res.evaluations += 1; stats["names"] += 1
+            found = [type(o).__name__ for o in (vb, pb) if inspect.getattr_static(o, nm, missing) is not missing]
+            if found:
+                stats["statically_found"] += 1
+                notes.append(f"{nm!r} is an attribute of {found} (model: not defined, reaches __getattr__)")
+            pre, key, suf = own_parse(nm.rstrip("\n"))
+            exp = None if (pre == "s" and suf == "t") else ["modulus_isothermal" if suf == "t" else "modulus_adiabatic", key] if pre == "c" else ["_compliances", key]
+            try:
+                got = getattr(vb, nm)
+                im = [tag[id(got)][0], tag[id(got)][1]] if id(got) in tag else "untagged-object"
+            except AttributeError:
+                im = None
+            except Exception as e:
+                im = type(e).__name__
+            if exp is None:
+                if isinstance(im, list) and im[0] == "_compliances":
+                    fails.append(OracleFailure(what=f"attribute {nm!r} (isothermal name) returns the adiabatic compliance {im}", input=dict(payload, names=[nm]),
+                                               observed=jsonable(im), expected="AttributeError, or the inverse of the isothermal stiffness", site=SITE_SIJT))
+                stats["attribute_error_expected"] += 1
+            elif im != exp:
+                fails.append(OracleFailure(
+                    what=f"getattr(volume_base, {nm!r}) is {im} instead of {exp}" + (f" — the name is an attribute of {found}, __getattr__ is not reached" if found else ""),
+                    input=dict(payload, names=[nm]), observed=jsonable(im), expected=jsonable(exp), site="lookup:wrong-store-or-key"))
+            else:
+                stats["served_from_expected_store"] += 1
+            if fails: break
+        if fails: break
+        # (d) the pressure interface: `self.v2p` replaced on the instance by a tagging function (a plain method: the instance attribute wins)
+        pb.v2p = lambda x: ("v2p", x)
+        for nm in names[::7] + ["v_array", "pressures"]:
+            try: inner = getattr(vb, nm)
+            except AttributeError: inner = missing
+            try: outer = getattr(pb, nm)
+            except AttributeError: outer = missing
+            ok = (outer is missing and inner is missing) or (isinstance(outer, tuple) and len(outer) == 2 and outer[0] == "v2p" and outer[1] is inner)
+            stats["pressure_forwarded"] += int(ok)
+            if not ok: notes.append(f"getattr(pressure_base, {nm!r}) is not v2p(getattr(volume_base, {nm!r}))")
+        del pb.v2p
+        # (c) the translated shape against the real classes / instances
+        shape = translated_shape()
+        implicit_ok = lambda n: n.startswith("__")
+        for o in (vb, pb):
+            cls = type(o)
+            if cls.__mro__ != (cls, object): notes.append(f"{cls.__name__} has base classes: {cls.__mro__}")
+            listed = set(shape["classNames"].get(cls.__name__, [])) if shape else None
+            real = set(cls.__dict__)
+            if listed is not None:
+                stats["class_shape_compared"] += 1
+                if not listed <= real: notes.append(f"{cls.__name__}: translated names not in the class dict: {sorted(listed - real)}")
+                extra = [n for n in real - listed if not implicit_ok(n)]
+                if extra: notes.append(f"{cls.__name__}: class dict has names the translator does not list: {sorted(extra)}")
+                inst = set(vars(o))
+                init = set(shape["initAttrs"].get(cls.__name__, [])); may = init | set(shape["laterAttrs"].get(cls.__name__, [])) | set(shape["lazyCacheAttrs"].get(cls.__name__, []))
+                if not init <= inst: notes.append(f"{cls.__name__}: attributes of __init__ missing on the instance: {sorted(init - inst)}")
+                if not inst <= may: notes.append(f"{cls.__name__}: instance attributes the translator does not list: {sorted(inst - may)}")
+            other = [n for n in dir(o) if n not in real and n not in vars(o) and not implicit_ok(n)]
+            if other: notes.append(f"{cls.__name__}: dir() lists names from elsewhere not spelled __…: {other}")
+    if notes:
+        res.disagreements.append(Disagreement("c07.attr_shape", {"kind": "attr-shape"}, notes[:12], "accepted names are not attributes; translated shape = real shape",
+                                              "; ".join(notes[:6])))
+    else:
+        res.traces_validated += 1
+    res.distribution["shadow_stream"] = stats
+    return fails
+
+
 # ---- two real Calculators alive at once ----------------------------------------------------------------------------------------
 def case_from_calculator(calc, kind):
     keys = [tuple(int(x) for x in k.v) for k in calc.modulus_keys]
@@ -1056,6 +1186,7 @@ def run(ctx: Ctx) -> Result:
     res.oracle_failures.extend(orders_stream(ctx, glue, res, pick, 4 if th else 2))
     res.oracle_failures.extend(pairs_stream(ctx, glue, res, sub, consts, 150 if th else 40))
     res.oracle_failures.extend(lookup_stream(ctx, glue, res, 60 if th else 12, 120 if th else 60))
+    res.oracle_failures.extend(shadow_stream(ctx, res))
     res.oracle_failures.extend(real_stream(ctx, res, consts, 6 if th else 2))
     allc = cases + edges
     res.distinct_nontrivial = len({case_hash(c) for c in allc if c["kind"] == "spd" and len(c["keys"]) >= 9})
@@ -1114,6 +1245,7 @@ def search(ctx: Ctx, res: Result):
             out.oracle_failures.extend(lookup_stream(ctx, rng, out, 20, 120))
         except Exception:
             pass                                   # the driver may be unavailable when the model no longer builds
+        if k == 1: out.oracle_failures.extend(shadow_stream(ctx, out))     # needs no driver
         if out.oracle_failures or ctx.time_left() < 60: break
         if k <= 2:
             st = {}
